@@ -1,0 +1,26 @@
+//go:build verif
+
+package loader
+
+// Loader constructors are conversions; their classes in the ordering contract follow from their method sets
+// (FileLoader: Priority + Order() == 0; RawLoader, ArgsLoader: unordered).
+
+//@ func NewFileLoader
+//@ property C15
+//@ assigns nothing
+//@ ensures [is-conversion] result == FileLoader(file)
+
+//@ func NewRawLoader
+//@ property C15
+//@ assigns nothing
+//@ ensures [is-conversion] result == RawLoader(raw)
+
+//@ func NewArgsLoader
+//@ property C15
+//@ assigns nothing
+//@ ensures [is-conversion] result == ArgsLoader(args)
+
+//@ func (FileLoader).Order
+//@ property C15 C12
+//@ assigns nothing
+//@ ensures [file-loaders-order-zero] result == 0
